@@ -64,6 +64,9 @@ structure ManifestFacts where
   benderIncludeDirs : List String
   core : List ManifestEntry
   tracked : List String                      -- `git ls-files` of the working tree (existing files)
+  examples : List (String × String) := []    -- shipped example description ↦ its `name:`
+  cliNamePatterns : List (String × String) := []   -- output file = prefix ++ name ++ suffix (floogen/cli.py)
+  cliRenderBeforeWrite : Bool := false       -- both render calls precede every open()/print() in render_sources
   deriving Repr, Inhabited
 
 structure PyFacts where
@@ -71,5 +74,31 @@ structure PyFacts where
   xyToCoords : List (Nat × Int × Int)        -- XYDirections.to_coords
   routeAlgo : List (String × String)         -- RouteAlgo name ↦ value
   deriving Repr, Inhabited
+
+end FlooVerif
+
+namespace FlooVerif
+
+/-- arithmetic expressions translated from Python source (util/gen_jobs.py) -/
+inductive AExpr where
+  | const (n : Nat)
+  | var (name : String)
+  | add (a b : AExpr)
+  | sub (a b : AExpr)
+  | mul (a b : AExpr)
+  | shl (a b : AExpr)
+  | div (a b : AExpr)
+  | mod (a b : AExpr)
+  deriving Repr, DecidableEq, Inhabited
+
+def AExpr.eval (env : List (String × Nat)) : AExpr → Nat
+  | .const n => n
+  | .var v => ((env.find? (·.1 == v)).map (·.2)).getD 0
+  | .add a b => a.eval env + b.eval env
+  | .sub a b => a.eval env - b.eval env
+  | .mul a b => a.eval env * b.eval env
+  | .shl a b => a.eval env * 2 ^ b.eval env
+  | .div a b => a.eval env / b.eval env
+  | .mod a b => a.eval env % b.eval env
 
 end FlooVerif
